@@ -117,6 +117,9 @@ func (e *Engine) verifyFunc(fn *ssa.Function) (res *FuncResult) {
 		for _, cl := range c.clauses("requires") {
 			x.assume(g, pre.evalClause(fn, cl, params, st, g))
 		}
+		for _, cl := range c.clauses("fmtwhen") {
+			x.fmtHyp = append(x.fmtHyp, x.define("fmthyp", pre.evalClause(fn, cl, params, st, g)))
+		}
 		for _, cl := range c.clauses("decreases") {
 			x.rootDec = append(x.rootDec, x.define("rootdec", pre.evalClause(fn, cl, params, st, g)))
 		}
